@@ -188,7 +188,7 @@ impl G {
             _ => {
                 if self.lc {
                     self.used.push("lc");
-                    self.r.pick(&[" // lc\n", "// x y\n", " //\n", "\n// own line\n"]).into()
+                    self.r.pick(&[" // lc\n", "// x y\n", " //\n", "\n// own line\n", " // one\n // two\n", " /* a */ // b\n", "\n// p\n// q\n"]).into()
                 } else {
                     "\n".into()
                 }
@@ -562,6 +562,25 @@ impl G {
                         s += &format!("${}$", self.math(d - 1));
                     }
                 }
+                6 if self.r.below(2) == 0 => {
+                    // embedded statements and calls whose content holds only code, inside a prose line
+                    if d > 0 {
+                        self.used.push("embedded-stmt");
+                        let a = self.expr(d - 1);
+                        let b = self.expr(d - 1);
+                        let i = self.ident();
+                        s += &match self.r.below(8) {
+                            0 => format!("#let v = {} * {}", a, b),
+                            1 => format!("#if {} == {} and {} {{ {} }}", a, b, i, i),
+                            2 => format!("#while {} < {} {{ {} }}", i, a, b),
+                            3 => format!("#box[#rect(width: {}, height: {})]", a, b),
+                            4 => format!("@ref[#numbering(\"1.1\", {}, {})]", a, b),
+                            5 => format!("#strong[#text(fill: red, size: {})[{}]]", a, i),
+                            6 => format!("#{}({}, [ #if {} == {} and {} {{ {} }} else {{ none }} ])", i, a, a, b, i, b),
+                            _ => format!("#figure(caption: [ #let q = {} + {} ])", a, b),
+                        };
+                    }
+                }
                 6 => {
                     if self.bc {
                         self.used.push("bc-markup");
@@ -624,7 +643,7 @@ impl G {
                     }
                 }
                 11 => s += self.r.pick(&["[a, b]", "{x}", "|y|", "lr((a))"]),
-                12 => s += self.r.pick(&["√x", "x_(i j)", "a^(-1)", "vec(1, 2)", "f(x, y)", "cases(a &\"if\" b, c)"]),
+                12 => s += self.r.pick(&["√x", "x_(i j)", "a^(-1)", "vec(1, 2)", "f(x, y)", "cases(a &\"if\" b, c)", "#f(x)[c]", "#g[a][b]", "vec(#f(x)[c], b)", "mat(#g[a][b]; #h(1, 2))", "#f(x)"]),
                 _ => s += "y",
             }
             s += self.r.pick(&[" ", " ", "", "\n", "  "]);
@@ -870,6 +889,8 @@ pub const TRIVIA: &[&str] = &[
     "/*\n    p\n  \n    q\n*/",
     " // lc\n",
     "\n// own\n",
+    " // one\n // two\n",
+    " /* a */ // b\n",
     " /* @typstyle off */ ",
     "// @typstyle off\n",
     "/*@typstyle off*/",
